@@ -146,6 +146,7 @@ type FuncSpec struct {
 	Nilable  map[string]bool // parameters that may be nil (exempt from the default non-nil precondition of the safety sweep)
 	PostUpdates []Update // ghost updates evaluated in the post-state (may mention result); applied after `updates`
 	Bridges  []Update // ghost(params) = expr over the CURRENT ghost state at return: proved equal to the declared update, then usable
+	DetParams  []string // subset of PureParams: result is a function of the arguments alone
 	PureParams []string // function-typed parameters whose calls have no effect (checked at every call site)
 	CallAsserts []CallAssert // callassert Callee#n: expr  (proved just before the n-th call of Callee, args as arg0..)
 	Hints    []Clause // proved at every return in the state BEFORE the ghost updates; introduces ground terms
@@ -158,6 +159,7 @@ type CallAssert struct {
 	Name   string
 	Pos    string
 	bound  bool
+	Upd    *Update // callupdate: a ghost assignment executed just before the call instead of an assertion
 }
 
 type Axiom struct {
@@ -191,7 +193,7 @@ type tok struct {
 var keywords = map[string]bool{
 	"requires": true, "ensures": true, "modifies": true, "updates": true, "loop": true,
 	"func": true, "fun": true, "macro": true, "ghost": true, "axiom": true, "iface": true,
-	"trusted": true, "assume": true, "defaxiom": true, "hint": true, "bridge": true, "postupdates": true, "callassert": true, "purefunc": true, "uses": true, "inv": true, "dec": true, "nonnil": true, "typeinv": true, "nilable": true, "globalinv": true, "refines": true, "absmacro": true,
+	"trusted": true, "assume": true, "defaxiom": true, "hint": true, "bridge": true, "postupdates": true, "callassert": true, "callupdate": true, "purefunc": true, "detfunc": true, "uses": true, "inv": true, "dec": true, "nonnil": true, "typeinv": true, "nilable": true, "globalinv": true, "refines": true, "absmacro": true,
 }
 
 func lex(src string, line0 int, file string) ([]tok, error) {
@@ -752,6 +754,30 @@ func (p *sparser) parseClauses(fs *FuncSpec) {
 			}
 			p.expectOp(":")
 			fs.CallAsserts = append(fs.CallAsserts, CallAssert{Callee: callee, N: n, E: p.expr(), Name: lb, Pos: pos})
+		case "callupdate":
+			// callupdate Callee#n: ghost(params) = expr   -- ghost assignment executed just before the n-th call of Callee
+			// (expr sees the locals and the ghost state at that point; several at one site are simultaneous)
+			p.next()
+			callee := p.funcKey()
+			n := 1
+			if p.isOp("#") {
+				p.next()
+				t := p.next()
+				n = int(t.n)
+			}
+			p.expectOp(":")
+			gname := p.ident()
+			p.expectOp("(")
+			var ps []string
+			for !p.isOp(")") {
+				ps = append(ps, p.ident())
+				if p.isOp(",") {
+					p.next()
+				}
+			}
+			p.expectOp(")")
+			p.expectOp("=")
+			fs.CallAsserts = append(fs.CallAsserts, CallAssert{Callee: callee, N: n, Pos: pos, Upd: &Update{Ghost: gname, Params: ps, Body: p.expr(), Pos: pos}})
 		case "hint":
 			p.next()
 			lb := p.label()
@@ -767,9 +793,15 @@ func (p *sparser) parseClauses(fs *FuncSpec) {
 			// primary contract, e.g. a claim-free `modifies everything` summary)
 			p.next()
 			fs.BodySpec = true
-		case "purefunc":
+		case "purefunc", "detfunc":
+			// detfunc p: like purefunc, and the result of p is a function of its arguments alone (an assumption about
+			// the functions passed in, stated in the evidence); specs name that result as funres(p, args...)
+			det := t.s == "detfunc"
 			p.next()
 			for {
+				if det {
+					fs.DetParams = append(fs.DetParams, p.peek().s)
+				}
 				fs.PureParams = append(fs.PureParams, p.ident())
 				if p.isOp(",") {
 					p.next()
